@@ -194,7 +194,7 @@ Proof.
   destruct (mu_idle (mw xw) t) eqn:MI; try exact H0.
   assert (t < length (xthr xw))%nat as Ht by (apply xget_inb; rewrite Hx; discriminate).
   pose proof Hx as Hx'. unfold xget in Hx.
-  destruct o as [o'|m| | |[m|]]; xn Hx; rewrite ?nth_lupd_same by exact Ht; cbn [x_pc x_ops x_rets];
+  destruct o as [o'|m| | |[m|]|m]; xn Hx; rewrite ?nth_lupd_same by exact Ht; cbn [x_pc x_ops x_rets];
     (apply HXw_local; [exact H0 | exact Ht | reflexivity | reflexivity | reflexivity | reflexivity | | | | | ]);
     rewrite ?Hx'; cbn [x_pc wph2 xs_pc xv_pc xo_pc]; try reflexivity; try discriminate;
     try (intros x; first [apply P_push_op | reflexivity]).
@@ -252,7 +252,7 @@ Proof.
     destruct xp; try apply HX0. destruct xo as [|o rest]; try apply HX0.
     destruct (mu_idle (mw xw0) t); try apply HX0.
     assert (t < length (xthr xw0))%nat as Ht by (apply xget_inb; rewrite Hx; discriminate).
-    unfold xget in Hx. destruct o as [o'|m| | |[m|]]; xn Hx; rewrite ?nth_lupd_same by exact Ht; cbn [x_pc x_ops x_rets];
+    unfold xget in Hx. destruct o as [o'|m| | |[m|]|m]; xn Hx; rewrite ?nth_lupd_same by exact Ht; cbn [x_pc x_ops x_rets];
       (destruct (Nat.eq_dec t' t) as [->|N]; [rewrite nth_lupd_same by exact Ht | rewrite nth_lupd_other by exact N; apply HX0]);
       cbn [x_pc xpcH]; try exact I.
     all: destruct (held (get (mw xw0) t)) as [m'|]; [destruct (mode_eqb m m')|]; exact I. }
@@ -619,6 +619,32 @@ Proof.
     + rewrite nth_lupd_same by exact Ht. cbn [x_ops x_rets]. rewrite Em.
       apply (HXw_mu n Hn); auto; rewrite ?Hx'; reflexivity.
     + rewrite Em. apply (HXw_mu0 n Hn); auto; rewrite Hx'; reflexivity.
+  - (* XgStore *) assert (t < length (xthr xw))%nat as Ht by (apply HtN; discriminate). cbn [fst]. xn Hx.
+    change (negb (nsync_cv_wait_with_deadline_generic_store1_new =? 0)) with true.
+    destruct Hp as [PI _].
+    set (xs' := {| x_pc := XwEnq (mk_xwl m m false false true); x_ops := xo; x_rets := xr |}).
+    set (xw' := mk_xw (set_waiting (mw xw) t true) (cvq xw) (fupd (xferred xw) t false) (lupd (xthr xw) t xs')).
+    assert (forall p, xget xw' p = if Nat.eqb p t then xs' else xget xw p) as G by (intros p; now apply xget_upd).
+    apply HXw_sw; [exact H1 | exact Ht | reflexivity | apply incl_refl | intros; left; reflexivity
+                  | rewrite Hx'; discriminate | | | | intros; apply H8]; fold xw'.
+    + intros a Ha. unfold agentx in *. change (P (set_waiting (mw xw) t true) a) with (P (mw xw) a).
+      cbn [waiting set_waiting]. destruct (Nat.eq_dec a t) as [->|N].
+      * exfalso. destruct Ha as [A | [A _]]; [unfold P in A; rewrite PI in A; discriminate A|].
+        unfold xaf in A. rewrite Hx' in A. discriminate A.
+      * rewrite fupd_other by exact N. unfold xaf in *. rewrite G. cbn [xferred xw'].
+        destruct (Nat.eqb_spec a t); [contradiction|]. now rewrite fupd_other.
+    + intros x Ix Wx. cbn [waiting set_waiting] in Wx. destruct (Nat.eq_dec x t) as [->|N].
+      * unfold kof in Ix. rewrite PI in Ix. discriminate Ix.
+      * now rewrite fupd_other in Wx.
+    + apply (H7_mono _ _ _ _ _ _ H7).
+      * intros x Sx Wx. cbn [waiting set_waiting] in Wx. destruct (Nat.eq_dec x t) as [->|N].
+        { rewrite fupd_same in Wx. discriminate Wx. }
+        rewrite fupd_other in Wx by exact N. left. split; [|split; [exact Wx | cbn [sem set_waiting]; lia]].
+        destruct Sx as [Sx | Sx]; [left; exact Sx | right]. unfold xsf in *. rewrite G in Sx.
+        destruct (Nat.eqb_spec x t); [contradiction | exact Sx].
+      * intros; assumption.
+      * intros t' x V. left. unfold xvf in *. rewrite G. destruct (Nat.eqb_spec t' t) as [E|N]; [|exact V].
+        rewrite E, Hx' in V. discriminate V.
 Qed.
 End HandoffX2.
 
@@ -628,7 +654,7 @@ Proof.
   destruct xp; try apply HX0. destruct xo as [|o rest]; try apply HX0.
   destruct (mu_idle (mw xw0) t); try apply HX0.
   assert (t < length (xthr xw0))%nat as Ht by (apply xget_inb; rewrite Hx; discriminate).
-  unfold xget in Hx. destruct o as [o'|m| | |[m|]]; xn Hx; rewrite ?nth_lupd_same by exact Ht; cbn [x_pc x_ops x_rets];
+  unfold xget in Hx. destruct o as [o'|m| | |[m|]|m]; xn Hx; rewrite ?nth_lupd_same by exact Ht; cbn [x_pc x_ops x_rets];
     (destruct (Nat.eq_dec t' t) as [->|N]; [rewrite nth_lupd_same by exact Ht | rewrite nth_lupd_other by exact N; apply HX0]);
     cbn [x_pc xpcH]; try exact I.
   all: destruct (held (get (mw xw0) t)) as [m'|]; [destruct (mode_eqb m m')|]; exact I.
@@ -713,6 +739,7 @@ Proof.
   - assert (t < length (xthr xw))%nat as Ht by (apply HtN; discriminate).
     unfold mu_step. destruct (step (mw xw) t) as [m' e]. xnorm. cbn [mw].
     destruct (mu_pc_idle m' t); cbn [fst]; xn Hx; rewrite ?lupd_lupd; finh HXb Ht.
+  - assert (t < length (xthr xw))%nat as Ht by (apply HtN; discriminate). cbn [fst]. xn Hx. finh HXb Ht.
 Qed.
 
 (* ----- all the invariants of the wrapper together ----- *)
@@ -809,7 +836,7 @@ Proof.
         right; left. split; [now left|]. apply AS. cbn [snd]. congruence. }
     exfalso. assert (t < length (xthr xw))%nat as Ht.
     { apply xget_inb. intros E. rewrite E in EO. discriminate EO. }
-    destruct o as [o'|m| | |[m|]]; revert A; unfold set_xpc, set_xt, set_mw, xget; cbn [mw cvq xferred xthr];
+    destruct o as [o'|m| | |[m|]|m]; revert A; unfold set_xpc, set_xt, set_mw, xget; cbn [mw cvq xferred xthr];
       rewrite ?lupd_lupd, ?nth_lupd_same by exact Ht; cbn [x_pc x_ops x_rets].
     + unfold mu_step. cbn [mw]. destruct (step (push_op (mw xw) t o') t) as [m' e] eqn:E. cbn [snd]. intros A.
       apply (push_step_not_blocked (mw xw) t o' MI). rewrite E. cbn [snd]. congruence.
@@ -818,6 +845,7 @@ Proof.
     + cbn [snd]. discriminate.
     + destruct (held (get (mw xw) t)) as [m'|]; [destruct (mode_eqb m m')|]; cbn [snd]; discriminate.
     + cbn [snd]. discriminate.
+    + destruct (held (get (mw xw) t)) as [m'|]; [destruct (mode_eqb m m')|]; cbn [snd]; discriminate.
   - rewrite xbegin_nonidle in A by (rewrite EX; discriminate). cbv zeta in A. rewrite EX in A. discriminate A.
   - rewrite xbegin_nonidle in A by (rewrite EX; discriminate). cbv zeta in A. rewrite EX in A. discriminate A.
   - rewrite xbegin_nonidle in A by (rewrite EX; discriminate). cbv zeta in A. rewrite EX in A.
@@ -880,6 +908,7 @@ Proof.
     unfold mu_step in A. destruct (step (mw xw) t) as [m' e] eqn:E.
     assert (e = EvBlocked) as -> by (destruct (mu_pc_idle (mw (set_mw xw m')) t); cbn [snd] in A; congruence).
     right; left. split; [right; right; eauto|]. apply asleep_pc. unfold h_asleep. rewrite E. reflexivity.
+  - (* XgStore *) rewrite xbegin_nonidle in A by (rewrite EX; discriminate). cbv zeta in A. rewrite EX in A. discriminate A.
 Qed.
 
 Section Quiescent.
